@@ -260,6 +260,14 @@ class SmtpRelayClient(RelayPoolClient):
         except SmtpRelayError:
             if data and not _refused(data, ('2', '3')):
                 self._send_empty_data()
+            if data and not _refused(mailfrom) and \
+                    not all(_refused(rcptto) for rcptto in rcpttos):
+                # The refusal of DATA stands for the recipients that were
+                # accepted; the refused ones keep their own replies.
+                for i, rcpt_reply in enumerate(rcpttos):
+                    if _refused(rcpt_reply):
+                        rcpt = envelope.recipients[i]
+                        rcpt_results[rcpt] = SmtpRelayError.factory(rcpt_reply)
             raise
         all_refused = True
         for i, rcpt_reply in enumerate(rcpttos):
@@ -285,7 +293,15 @@ class SmtpRelayClient(RelayPoolClient):
                 return
             msg_result = self._send_message_data(envelope)
         except SmtpRelayError as e:
-            result.set_exception(e)
+            if any(value is not None for value in rcpt_results.values()):
+                # Some recipients were refused on their own account: the
+                # error of the message is the result of the others only.
+                for key, value in rcpt_results.items():
+                    if value is None:
+                        rcpt_results[key] = e
+                result.set(rcpt_results)
+            else:
+                result.set_exception(e)
             self._rset()
         else:
             for key, value in rcpt_results.items():
